@@ -41,6 +41,11 @@ st = subprocess.run('git -C /repo status --porcelain', shell=True, stdout=subpro
 assert st == '', '/repo not clean: ' + st
 subprocess.check_call(['git', '-C', '/repo', 'apply', f'{dst}/patch.diff'])
 results = {}
+# evidence and replays written while /repo is patched are not kept
+ev_save = '/var/tmp/seedtest-evidence'
+shutil.rmtree(ev_save, ignore_errors=True)
+shutil.copytree('/verif/evidence', ev_save)
+rp_before = set(os.listdir('/verif/replays'))
 try:
     for c in checks:
         t0 = time.time()
@@ -50,6 +55,11 @@ try:
         print(c, 'exit', r.returncode, '|'.join(lines[-2:])[:400])
 finally:
     subprocess.check_call(['git', '-C', '/repo', 'checkout', '--', '.'])
+    shutil.rmtree('/verif/evidence', ignore_errors=True)
+    shutil.copytree(ev_save, '/verif/evidence')
+    shutil.rmtree(ev_save, ignore_errors=True)
+    for f in set(os.listdir('/verif/replays')) - rp_before:
+        os.remove(os.path.join('/verif/replays', f))
 meta['checks'] = results
 meta['detected_by'] = [c for c, v in results.items() if v['exit'] == 1]
 json.dump(meta, open(f'{dst}/run.json', 'w'), indent=1)
